@@ -26,6 +26,7 @@ package ebp
 
 import (
 	"encoding/binary"
+	"math"
 	"time"
 
 	"github.com/Comcast/gots/v2"
@@ -158,6 +159,11 @@ func insertUtcTime(t time.Time) (seconds uint32, fraction uint32) {
 	// running extractUtcTime and then insertUtcTime will produce
 	// different results because of rounding that heppns twice.
 	// 1 is added to avoid truncating the second time.
-	fraction = uint32((((nanos % 1e9) + 1) << 32) / 1e9)
+	frac := (((nanos % 1e9) + 1) << 32) / 1e9
+	if frac > math.MaxUint32 {
+		// the last nanosecond of a second would round up to 2^32 and wrap to 0
+		frac = math.MaxUint32
+	}
+	fraction = uint32(frac)
 	return
 }
